@@ -311,6 +311,12 @@ func (c *candidateBase) recvLoop(initializedCh <-chan struct{}) {
 }
 
 func (c *candidateBase) validateSTUNTrafficCache(addr netip.AddrPort) bool {
+	// The cache key has no room for an IPv6 zone: a zoned (link-local) source is looked
+	// up among the remote candidates every time, where the zone is compared.
+	if addr.Addr().Zone() != "" {
+		return false
+	}
+
 	if candidate, ok := c.remoteCandidateCaches.Load(toAddrPortKey(addr)); ok {
 		remoteCandidate, ok := candidate.(Candidate)
 		if !ok {
@@ -326,7 +332,7 @@ func (c *candidateBase) validateSTUNTrafficCache(addr netip.AddrPort) bool {
 }
 
 func (c *candidateBase) addRemoteCandidateCache(candidate Candidate, srcAddr netip.AddrPort) {
-	if c.validateSTUNTrafficCache(srcAddr) {
+	if srcAddr.Addr().Zone() != "" || c.validateSTUNTrafficCache(srcAddr) {
 		return
 	}
 	c.remoteCandidateCaches.Store(toAddrPortKey(srcAddr), candidate)
